@@ -20,7 +20,7 @@ from common import log
 GENERIC_FILES = {'wbxml_buffers.c', 'wbxml_lists.c', 'wbxml_elt.c', 'wbxml_base64.c', 'wbxml_charset.c',
                  'wbxml_mem.c', 'oom_alloc.c'}
 ALLOC_RE = re.compile(r'\bwbxml_(malloc|realloc|strdup)\s*\(')
-HARNESS_FRAMES = ('main', 'conv_main', 'one_run', 'do_conv', 'unit_main', 'do_U', 'do_P', 'do_S', 'do_T',
+HARNESS_FRAMES = ('main', 'conv_main', 'one_run', 'do_conv', 'unit_main', 'do_U', 'do_P', 'do_S', 'do_T', 'do_B', 'do_D',
                   'decode_canon', 'equivalent_wbxml')
 EXCLUDED_OBJS = ('wbxml_mem.c.o', 'wbxml_parser.c.o', 'wbxml_encoder.c.o')
 N_OPTS = 6
@@ -161,9 +161,9 @@ def asan_summary(report_hex):
 
 # ------------------------------------------------------------------------------ unit level
 
-def unit_info(exe, env):
-    r = common.run([exe, 'unit'], input='OOM INFO\n', env=env, stderr=subprocess.PIPE)
-    m = re.match(r'INFO pubid=(\d+) tags=(\S*) attrs=(\S*) tagtokens=(\S*)', r.stdout.strip())
+def unit_info(exe, env, lang=''):
+    r = common.run([exe, 'unit'], input='OOM INFO%s\n' % (' ' + lang if lang else ''), env=env, stderr=subprocess.PIPE)
+    m = re.match(r'INFO pubid=(\d+) tags=(\S*) attrs=(\S*) tagtokens=(\S*) xmlid=(\S*)', r.stdout.strip())
     if not m:
         raise common.BuildError('harness OOM INFO failed: ' + (r.stdout + (r.stderr or ''))[-400:])
     attrs = []
@@ -171,7 +171,8 @@ def unit_info(exe, env):
         row, val = x.split('/')
         attrs.append((int(row), val))
     toks = dict((int(a), int(b)) for a, b in (x.split(':') for x in m.group(4).split(',')))
-    return {'pubid': int(m.group(1)), 'tags': [int(x) for x in m.group(2).split(',')], 'attrs': attrs, 'tagtokens': toks}
+    return {'pubid': int(m.group(1)), 'tags': [int(x) for x in m.group(2).split(',')], 'attrs': attrs, 'tagtokens': toks,
+            'xmlid': m.group(5)}
 
 
 def hx(b):
@@ -456,6 +457,228 @@ def gen_B(rng, info):
     return ','.join(evs)
 
 
+# Minimised OOM D replays of the mutation checks of DESIGN_NOTES/C16.md §10 (clean on the repaired tree), run first.
+# (Kept here and not only in corpus/c16/unit_replays.txt: tools/seed_eval.py restores corpus/ from git after every seeded run.)
+D_REPLAYS = [
+    'OOM D 0 0 R 00 0 Z4974656d00786d6c3a6c616e6700696400616c70686100780041646400 K - B1L0.4974656d~L5.786d6c3a6c616e67|L14.6964:R17.616c706861,D9a3fb64c8f -',
+    'OOM D 21 0 W 00 0 Z69640041646400696400636c61737300 K - B1T2~T80/N:S336666|U E',
+    'OOM D 9 0 W 00 0 Z78 K - B1T5~- CCS6162;B0T7~T0/N:S76;CCXI0.78;E',
+    'OOM D 22 0 W 00 0 Z78 K - B1T5~- CCS6162;B0T7~T0/N:S76;CCXT0.0.78;E',
+]
+
+D_LITS = [b'Data', b'Add', b'Replace', b'Item', b'x', b'SyncBody', b'a:b', b'long-literal-element-name']
+D_KEYVALUE_ROW = 7          # <ds:KeyValue> in the DRMREL 1.0 tag table: its opaque content is base64-decoded
+
+
+def utf8_6(code):
+    """parse_entity's own UCS-4 -> UTF-8 (up to 6 bytes), NUL-terminated C string semantics"""
+    if code < 0x80:
+        return bytes([code]) if code else b''
+    masks = [0xFC, 0xF8, 0xF0, 0xE0, 0xC0]
+    ent, index = [0] * 7, 5
+    while code >= (0x40 >> (5 - index)):
+        ent[index] = 0x80 | (code & 0x3F)
+        code >>= 6
+        index -= 1
+    ent[index] = masks[index] | code
+    out = bytes(ent[index:6])
+    return out.split(b'\0')[0]
+
+
+def gen_D(rng, infos):
+    """A whole WBXML document as shapes for `OOM D` (see harness/oom.c).  The generator lays out the string
+    table, predicts — as gen_B does — which content items land in a CDATA section (<Data> under <Add>/<Replace>)
+    and which opaque items are base64-decoded (DRMREL <ds:KeyValue> while it is the parser's current tag)."""
+    import base64
+    lang = 'R' if rng.random() < 0.2 else 'W'
+    info = infos[lang]
+    tbl = bytearray()
+    use_tbl = rng.random() < 0.75
+
+    def add(sv):
+        i = bytes(tbl).find(sv + b'\0')
+        if i >= 0 and rng.random() < 0.7:
+            return i
+        i = len(tbl)
+        tbl.extend(sv + b'\0')
+        return i
+
+    def text(maxn=40):
+        return bytes(rng.choice(b'abc de<&\n') for _ in range(rng.choice([0, 1, 2, 5, 17, maxn])))
+
+    def attr():
+        c = rng.random()
+        if c < 0.55 or not use_tbl and c >= 0.75:
+            row, val = rng.choice(info['attrs'])
+            st = 'T%d/%s' % (row, val)
+        elif c < 0.75:
+            st = 'U'
+        else:
+            nm = rng.choice([b'id', b'a', b'class', b'xml:lang'])
+            st = 'L%d.%s' % (add(nm), hx(nm))
+        pieces = []
+        for _ in range(rng.choice([0, 0, 1, 1, 2, 3])):
+            c = rng.random()
+            if c < 0.45:
+                pieces.append('S' + hx(bytes(rng.choice(b'abcdef 0123') for _ in range(rng.choice([0, 1, 3, 8, 30, 120])))))
+            elif c < 0.6 and use_tbl:
+                w = rng.choice(WORDS)
+                pieces.append('R%d.%s' % (add(w), hx(w)))
+            elif c < 0.985:
+                pieces.append('D' + hx(bytes(rng.randrange(256) for _ in range(rng.choice([0, 1, 2, 9, 64])))))
+            else:
+                pieces.append('E61')
+        return st + (':' + ','.join(pieces) if pieces else '')
+
+    def attrs():
+        n = rng.choice([0, 0, 0, 1, 1, 2, 3])
+        return '|'.join(attr() for _ in range(n)) if n else '-'
+
+    stack, cur = [], [None]            # open path (kind, name), innermost last; parser->current_tag (row)
+
+    def start(hc):
+        c = rng.random()
+        if c < 0.5 or not use_tbl and c >= 0.65:
+            row = D_KEYVALUE_ROW if lang == 'R' and rng.random() < 0.35 else rng.choice(info['tags'])
+            tag, nm = 'T%d' % row, None
+            cur[0] = row
+        elif c < 0.65:
+            tag, nm = 'U', b'unknown'
+        else:
+            nm = rng.choice(D_LITS)
+            tag = 'L%d.%s' % (add(nm), hx(nm))
+        spec = 'B%d%s~%s' % (1 if hc else 0, tag, attrs())
+        if stack and stack[-1][0] == 'C':
+            stack.pop()
+        stack.append(('E', nm))
+        return spec
+
+    def end():
+        if len(stack) > 1:
+            if stack[-1][0] == 'C':
+                stack.pop()
+            stack.pop()
+        cur[0] = None
+
+    def chars(nonempty):
+        """the letter for a content item that delivers `characters`"""
+        if not nonempty:
+            return 'C'
+        i = len(stack) - 1
+        if i >= 0 and stack[i][0] == 'C':
+            i -= 1
+        if i >= 2 and stack[i][1] == b'Data' and stack[i - 2][1] in (b'Add', b'Replace'):
+            if stack[-1][0] != 'C':
+                stack.append(('C', None))
+            return 'V'
+        return 'C'
+
+    def content():
+        c = rng.random()
+        if lang == 'R' and cur[0] == D_KEYVALUE_ROW and rng.random() < 0.6:
+            c = 0.5
+        if c < 0.3:
+            t = text()
+            return 'C%sS%s' % (chars(len(t) > 0), hx(t))
+        if c < 0.42 and use_tbl:
+            w = rng.choice(WORDS + [b''])
+            return 'C%sR%d.%s' % (chars(len(w) > 0), add(w), hx(w))
+        if c < 0.62:
+            d = bytes(rng.randrange(256) for _ in range(rng.choice([0, 1, 2, 3, 9, 64, 300])))
+            if lang == 'R' and cur[0] == D_KEYVALUE_ROW:
+                if not d:
+                    return 'CCB-.-'       # wbxml_base64_encode refuses an empty input: WBXML_ERROR_B64_ENC
+                e = base64.b64encode(d)
+                return 'C%sB%s.%s' % (chars(True), hx(d), hx(e))
+            return 'C%sD%s' % (chars(len(d) > 0), hx(d))
+        if c < 0.74:
+            code = rng.choice([0, 0x41, 0x7f, 0x80, 0xe9, 0x7ff, 0x800, 0x20ac, 0xffff, 0x10000, 0x1f600, 0x1fffff, 0x200000, 0x3ffffff, 0x4000000, 0x7fffffff])
+            u = utf8_6(code)
+            return 'C%sN%d.%s' % (chars(len(u) > 0), code, hx(u))
+        if c < 0.9 and lang == 'W':
+            k = rng.randrange(3)
+            v = bytes(rng.choice(b'abcXYZ_') for _ in range(rng.choice([0, 1, 4, 12])))
+            if use_tbl and rng.random() < 0.4:
+                return 'C%sXT%d.%d.%s' % (chars(True), k, add(v), hx(v))
+            return 'C%sXI%d.%s' % (chars(True), k, hx(v))
+        if lang == 'W' and c < 0.95:
+            return 'X%d' % rng.randrange(3)
+        return 'W'
+
+    budget = [rng.choice([1, 2, 4, 7, 12, 20, 30])]
+    items = []
+
+    def fill(depth):
+        """content of the element just started (it has content), up to and including its END"""
+        while budget[0] > 0 and rng.random() < 0.8:
+            budget[0] -= 1
+            c = rng.random()
+            if c < 0.38 and depth < 6:
+                hc = rng.random() < 0.7
+                items.append(start(hc))
+                if hc:
+                    fill(depth + 1)
+                else:
+                    end()
+            elif c < 0.45:
+                items.append('P' + attr())
+            else:
+                items.append(content())
+        items.append('E')
+        end()
+
+    pre = [attr() for _ in range(rng.choice([0, 0, 0, 0, 1, 2]))]
+    root_hc = rng.random() < 0.9
+    root = start(root_hc)
+    if root_hc:
+        fill(0)
+    else:
+        end()
+    for _ in range(rng.choice([0, 0, 0, 1, 2])):
+        items.append('P' + attr())
+    if rng.random() < 0.1:
+        items.append(rng.choice(['E', 'CCS61', 'W']))          # whatever follows the last PI is not looked at
+    # malformed tail: cut the document, or plant an item the parser refuses
+    c = rng.random()
+    if c < 0.12 and items:
+        items = items[:rng.randrange(len(items))]
+    elif c < 0.2 and items:
+        i = rng.randrange(len(items))
+        items = items[:i] + ['!43' if rng.random() < 0.6 else ('!48' if tbl else '!52')]
+    elif c < 0.23:
+        root, items = '!45', []
+    # header
+    pid = 'K'
+    c = rng.random()
+    if c < 0.03:
+        pid = 'U'
+    elif c < 0.2 and use_tbl:
+        xid = bytes.fromhex(info['xmlid'])
+        pid = 'SF%d' % add(xid)
+    elif c < 0.23 and use_tbl:
+        pid = 'SN%d' % add(rng.choice(WORDS))
+    elif c < 0.25 and tbl:
+        pid = 'SE%d' % (len(tbl) + 4 + rng.randrange(50))
+    elif 0.25 <= c < 0.28 and not tbl:
+        pid = 'SX'
+    st = '-'
+    if tbl:
+        c = rng.random()
+        if c < 0.25:
+            # last string not terminated: parse_strtbl appends four NUL bytes
+            if rng.random() < 0.5 and len(tbl) < 190:
+                # ... at the lengths at which one of the four appended bytes needs a realloc
+                want = rng.choice([196, 197, 198, 199, 200])
+                tbl.extend(b'p' * (want - len(tbl)))
+            elif len(tbl) >= 2 and tbl[-2] != 0:
+                del tbl[-1]
+        st = 'Z' + bytes(tbl).hex()
+    elif rng.random() < 0.04:
+        st = 'E54'
+    hdr = '35' if rng.random() < 0.03 else '0'
+    wb = '-' if rng.random() < 0.02 else '00'
+    return ' '.join([lang, wb, hdr, st, pid, ';'.join(pre) if pre else '-', root, ';'.join(items) if items else '-'])
+
 
 def gen_T(rng, info):
     """element-only tree over page-0 rows; returns (tree description, chunks the encoder must append)"""
@@ -509,7 +732,7 @@ def run_lines(cmd, lines, env=None, resilient=False):
     return out
 
 
-def unit_requests(rng, tier, info, driver, seed=0):
+def unit_requests(rng, tier, info, driver, seed=0, infos=None):
     """(programs) -> request lines for every k (and pairs) using the model's own request count."""
     nU, nP, nS, nT = (60, 50, 30, 24) if tier == 'quick' else (400, 300, 150, 100)
     bases = []
@@ -528,6 +751,11 @@ def unit_requests(rng, tier, info, driver, seed=0):
     rb = random.Random('c16-B-%s' % seed)
     for _ in range(40 if tier == 'quick' else 300):
         bases.append(('B', gen_B(rb, info)))
+    # D (whole wbxml_tree_from_wbxml: parser main loop + call-backs + glue), own generator as well
+    rd = random.Random('c16-D-%s' % seed)
+    if infos:
+        for _ in range(40 if tier == 'quick' else 400):
+            bases.append(('D', gen_D(rd, infos)))
     bases = [b for b in bases if b[1].strip()]
     zero = ['OOM %s 0 0 %s' % b for b in bases]
     resp = run_lines([driver], zero)
@@ -539,7 +767,7 @@ def unit_requests(rng, tier, info, driver, seed=0):
         for k in range(1, n + 2):           # n+1: a k that is never reached
             lines.append('OOM %s %d 0 %s' % (verb, k, body))
         npairs = 6 if tier == 'quick' else 40
-        rp = rb if verb == 'B' else rng
+        rp = rb if verb == 'B' else (rd if verb == 'D' else rng)
         for _ in range(min(npairs, n * (n - 1) // 2)):
             k1 = rp.randint(1, max(1, n - 1))
             k2 = rp.randint(k1 + 1, n + 3)
@@ -580,6 +808,14 @@ def unit_oracle(line, resp):
             return 'tree building failed with %s but live=%d tree=%s' % (ret, live, tree[:20])
         if ret == '0' and hits:
             return 'tree building returned OK although an allocation failed'
+    if verb == 'D':
+        tree = resp.rsplit('tree=', 1)[-1]
+        if ret != '0' and (live != 0 or tree != 'N'):
+            return 'wbxml_tree_from_wbxml failed with %s but live=%d tree=%s' % (ret, live, tree[:20])
+        if ret == '0' and hits:
+            return 'wbxml_tree_from_wbxml returned OK although an allocation failed'
+        if ret == '0' and (tree == 'N' or live <= 0):
+            return 'wbxml_tree_from_wbxml returned OK without a tree (live=%d)' % live
     return None
 
 
@@ -597,6 +833,44 @@ def shrink_U(line, differs):
                 changed = True
                 break
     return ' '.join(head + ops)
+
+
+def shrink_D(line, exe, env, driver):
+    """delta-debug a D request whose answer breaks the property on the implementation: drop body items and
+    leading PIs while SOME single failure k still breaks it (k is searched again: dropping an item renumbers the
+    requests).  The C/V letters may become stale, which only matters to the model: the oracle looks at the
+    implementation's answer alone."""
+    f = line.split()[4:]
+
+    def bad(fields):
+        body = ' '.join(fields)
+        r = run_lines([driver], ['OOM D 0 0 ' + body])[0]
+        m = re.search(r'req=(\d+)', r)
+        n = int(m.group(1)) if m else 0
+        ls = ['OOM D %d 0 %s' % (k, body) for k in range(0, n + 2)]
+        out = run_lines([exe, 'unit'], ls, env=env, resilient=True)
+        for l, o in zip(ls, out):
+            if unit_oracle(l, o):
+                return l
+        return None
+
+    best = bad(f)
+    if not best:
+        return None
+    for col in (7, 5):
+        changed = True
+        while changed:
+            changed = False
+            items = [] if f[col] == '-' else f[col].split(';')
+            for i in range(len(items)):
+                cand = list(f)
+                rest = items[:i] + items[i + 1:]
+                cand[col] = ';'.join(rest) if rest else '-'
+                got = bad(cand)
+                if got:
+                    f, best, changed = cand, got, True
+                    break
+    return best
 
 
 # ------------------------------------------------------------------------------ conversion level
@@ -739,7 +1013,9 @@ def run(res, args):
         lines += [l.strip() for l in open(os.path.join(corpus_dir, 'unit_replays.txt')) if l.startswith('OOM ')]
     except OSError:
         pass
-    lines += unit_requests(rng, res.tier, info, driver, res.seed)
+    lines += [l for l in D_REPLAYS if l not in lines]
+    infos = {'W': info, 'R': unit_info(exe, env, 'R')}
+    lines += unit_requests(rng, res.tier, info, driver, res.seed, infos)
     t0 = time.time()
     chunks = [lines[i::common.NCPU] for i in range(common.NCPU)]
     with ThreadPoolExecutor(common.NCPU) as ex:
@@ -859,6 +1135,12 @@ def run(res, args):
         if ln.split()[1] == 'U' and not c.startswith('CRASH'):
             ln = shrink_U(ln, lambda x: unit_oracle(x, run_lines([exe, 'unit'], [x], env=env, resilient=True)[0]) is not None)
             c = run_lines([exe, 'unit'], [ln], env=env, resilient=True)[0]
+        elif ln.split()[1] == 'D':
+            small = shrink_D(ln, exe, env, driver)
+            if small:
+                ln = small
+                c = run_lines([exe, 'unit'], [ln], env=env, resilient=True)[0]
+                ob = unit_oracle(ln, c) or ob
         res.violation({'kind': 'oom-unit', 'request': ln, 'impl': c, 'model': run_lines([driver], [ln])[0], 'oracle': ob,
                        'others': [x[0][:200] for x in new_unit[1:6]]}, 'unit-' + ln.split()[1])
     if diffs and not res.violations:
@@ -876,7 +1158,7 @@ def run(res, args):
                       'oom-correspondence', no_input=True)
     if failing and not res.violations:
         res.violation({'kind': 'proof', 'theorems': failing, 'explain': 'Props/C16.lean no longer checks'}, 'proof', no_input=True)
-    res.coverage['rule'] = ('unit: random op programs / attribute shapes / text lists / element trees / call-back event lists x every k (and sampled pairs), distinct = distinct '
+    res.coverage['rule'] = ('unit: random op programs / attribute shapes / text lists / element trees / call-back event lists / whole documents (OOM D: wbxml_tree_from_wbxml) x every k (and sampled pairs), distinct = distinct '
                             'request lines; conversion: documents x 6 option sets x every k in 1..N (N counted on the un-failed run), distinct = (document, option set)')
     res.coverage['new_sites'] = len(res.violations)
     return res.finish('proof', checker_cmd='lake build Wbxml.Props.C16 driver_alloc && #audit Wbxml.Props.C16 (lake env lean); '
